@@ -9,12 +9,14 @@ let nshares = 2
 let states = Array.make nshares (init source_cfg N0 N0)
 
 let parse_env = function
-  | c :: r :: _ -> { cut = (if c = "-" then None else Some (n_of_string c)); rfail = (r = "1") }
-  | _ -> { cut = None; rfail = false }
+  | c :: r :: rest ->
+      { cut = (if c = "-" then None else Some (n_of_string c)); rfail = (r = "1");
+        wfail = (match rest with w :: _ -> w = "1" | [] -> false) }
+  | _ -> { cut = None; rfail = false; wfail = false }
 
 let string_of_err = function
   | ENoAccount -> "noacct" | EFar -> "far" | EReadErr -> "readerr" | ENoRecord -> "norecord"
-  | ENilRecord -> "nilrecord" | ESlashable -> "slashable" | EZeroSlot -> "zeroslot"
+  | ENilRecord -> "nilrecord" | ESlashable -> "slashable" | EZeroSlot -> "zeroslot" | EWriteErr -> "writeerr"
 
 let string_of_outcome = function
   | Done -> "done" | Released _ -> "rel" | Refused e -> "refuse:" ^ string_of_err e | Crashed -> "crash"
